@@ -79,7 +79,10 @@ func c02R6(c *Ctx, rule string) {
 					return
 				}
 				if fv, _ := loadedField(call.Call.Args[0]); fv != bufF {
-					return
+					// the buffer may be a value field of the pipe: the receiver is its address
+					if fa, _ := fieldVar(stripConv(call.Call.Args[0])); fa != bufF {
+						return
+					}
 				}
 				name := g.Name()
 				construct := typ + ".buf." + name + " in " + shortFn(f)
